@@ -13,7 +13,7 @@
  * classes, prints what it saw.
  *
  * Encoder session
- *   xinit kind=K m=M path=direct|array|queue cap=N dl=<bytes> how=ctx|buf msg=<bytes> [name=N] [via=C]
+ *   xinit kind=K m=M path=direct|array|queue cap=N dl=<bytes>|nl=<newline type> how=ctx|buf msg=<bytes> [name=N] [via=C]
  *   push k=N | grow n=N | term | fin (complete and terminate) | next msg=<bytes> | delete k=N
  *   shift n=N | front | prepare n=N        (array: encode_array::shift / prepare)
  *   xfin           complete the message in progress (if any), report the whole
@@ -463,6 +463,13 @@ static void act_xinit(struct cmd *c)
 	edl_len = n > sizeof(edl) ? sizeof(edl) : n;
 	memcpy(edl, dl, edl_len);
 	free(dl);
+	if (drv_int(c, "nl", 0) > 0) {
+		/* line separator of the library (convert/newline_string.c) as delimiter */
+		const char *nl = mpt_newline_string((int) drv_int(c, "nl", 0));
+		edl_len = nl ? strlen(nl) : 0;
+		if (edl_len > sizeof(edl)) edl_len = sizeof(edl);
+		memcpy(edl, nl, edl_len);
+	}
 	emsg = drv_bytes(c, "msg", &emsg_len);
 	eacc = 0; epre = 0; guards_good = 1; eidle = 0;
 	memset(&est, 0, sizeof(est));
@@ -494,6 +501,7 @@ static void act_xinit(struct cmd *c)
 	j_str("ret", (efn || !strcmp(ekind, "raw")) ? "ok" : "nocodec");
 	j_int("val", val);
 	j_str("tname", tname);
+	j_bytes("dl", edl, edl_len);
 	emit_enc_dbg();
 	drv_end();
 }
